@@ -264,6 +264,15 @@ pub trait TypedIterable {
         let new_name_len = DNSSector::check_uncompressed_name(name, 0)?;
         let name = &name[..new_name_len];
         Compress::check_compressed_name(name, 0)?;
+        if !self.is_tombstone()
+            && self.current_section()? == Section::Additional
+            && self.rr_type() == Type::OPT.into()
+            && new_name_len != 1
+        {
+            bail!(DSError::InvalidPacket(
+                "OPT RRs must have the root domain as the domain name"
+            ));
+        }
         if self.parsed_packet().maybe_compressed {
             let (uncompressed, new_offset) = {
                 let ref_offset = self.offset().ok_or(DSError::VoidRecord)?;
